@@ -222,6 +222,28 @@ func (s *scen) run() core.Result {
 	if cerr != nil {
 		r.Class = "error"
 	}
+	// the same options reached through SetOptions on a converter built with the complementary ones
+	{
+		c := s.copts
+		alt := conv.Options{EnableValueMapping: !c.EnableValueMapping, EnableThriftBase: !c.EnableThriftBase, Int642String: !c.Int642String, NoBase64Binary: !c.NoBase64Binary,
+			ByteAsUint8: !c.ByteAsUint8, DisallowUnknownField: !c.DisallowUnknownField, UseNativeSkip: !c.UseNativeSkip, ConvertException: c.ConvertException}
+		cv2 := t2j.NewBinaryConv(alt)
+		cv2.SetOptions(s.copts)
+		var o2 []byte
+		var e2 error
+		ctx2, _ := mkctx()
+		pi2 := core.Catch(func() { o2, e2 = cv2.Do(ctx2, desc, append([]byte{}, msg...)) })
+		r.Count("conversions", 1)
+		if pi2 != nil {
+			r.Class = "panic"
+			r.Add(fmt.Sprintf("t2j.SetOptions+Do|%s|panic@%s:%s", s.op, pi2.Site, core.PanicClass(pi2.Val)), "msg %s\npanic: %.300s", cliphex(msg, 200), pi2.Val)
+			return r
+		}
+		if (e2 == nil) != (cerr == nil) || (e2 == nil && !bytes.Equal(o2, out)) {
+			r.Class = "violation"
+			r.Add(fmt.Sprintf("t2j.SetOptions+Do|%s|differs-from-converter-built-with-the-options", s.op), "options %s\nmsg %s\nNewBinaryConv(opts): %s err=%v\nSetOptions(opts):    %s err=%v", s.optName, cliphex(msg, 200), clip(out, 200), cerr, clip(o2, 200), e2)
+		}
+	}
 	for _, k := range s.ks {
 		c := 2*len(src) + k
 		if k < 0 {
